@@ -371,3 +371,180 @@ pub fn arithmetic() -> Vec<Snip06> {
     }
     out
 }
+
+// ---------------------------------------------------------------------------
+// Floating point: arithmetic at the largest finite SINGLE / DOUBLE values, and the
+// conversion DOUBLE -> SINGLE beyond the SINGLE range. The huge values are never
+// printed (R14): every snippet prints comparisons (-1 / 0) only.
+// ---------------------------------------------------------------------------
+
+/// The largest finite value of the type and half of it, written as `d.d` / `d.d#` literals with all their digits.
+pub fn float_extremes(t: Ty) -> (String, String) {
+    match t {
+        Ty::Single => (format!("{:.1}", f32::MAX as f64), format!("{:.1}", f32::MAX as f64 / 2.0)),
+        _ => (format!("{:.1}#", f64::MAX), format!("{:.1}#", f64::MAX / 2.0)),
+    }
+}
+
+pub fn float_arithmetic() -> Vec<Snip06> {
+    let mut out = vec![];
+    for t in [Ty::Single, Ty::Double] {
+        let (max, half) = float_extremes(t);
+        // named operands: M = MAX, H = MAX / 2, and small ones
+        let big = |b: &mut B| -> Vec<Stmt> {
+            vec![
+                b.assign(tv("M", t), Expr::Num(max.clone())),
+                b.assign(tv("H", t), Expr::Num(half.clone())),
+                b.assign(tv("NM", t), Expr::Neg(Box::new(Expr::Num(max.clone())))),
+                b.assign(tv("NH", t), Expr::Neg(Box::new(Expr::Num(half.clone())))),
+            ]
+        };
+        let operands: Vec<Expr> = vec![tv("M", t), tv("H", t), tv("NM", t), tv("NH", t)];
+        let smalls: Vec<Expr> = vec![num(2), num(-2), Expr::Num(".5".into()), Expr::Num("2.0".into()), Expr::Num("2.0#".into()), num(1), num(0)];
+        let mut pairs: Vec<(Expr, Expr)> = vec![];
+        for a in &operands {
+            for b2 in &operands {
+                pairs.push((a.clone(), b2.clone()));
+            }
+            for s in &smalls {
+                pairs.push((a.clone(), s.clone()));
+                pairs.push((s.clone(), a.clone()));
+            }
+        }
+        for (a, bb) in pairs {
+            for op in [BinOp::Add, BinOp::Sub, BinOp::Mul, BinOp::Div] {
+                for store in [false, true] {
+                    let mut b = B::new();
+                    let mut stmts = big(&mut b);
+                    let e = bin(op, a.clone(), bb.clone());
+                    // probes: comparisons with the named values and the sign
+                    let probes = |x: Expr| -> Vec<Expr> {
+                        vec![
+                            bin(BinOp::Eq, x.clone(), tv("M", t)),
+                            bin(BinOp::Eq, x.clone(), tv("H", t)),
+                            bin(BinOp::Eq, x.clone(), tv("NM", t)),
+                            bin(BinOp::Eq, x.clone(), tv("NH", t)),
+                            bin(BinOp::Gt, x.clone(), num(0)),
+                            bin(BinOp::Lt, x, num(0)),
+                        ]
+                    };
+                    if store {
+                        stmts.push(b.assign(tv("T", t), e));
+                        stmts.push(b.print(probes(tv("T", t))));
+                    } else {
+                        stmts.push(b.print(probes(Expr::Paren(Box::new(e)))));
+                    }
+                    out.push(Snip06 {
+                        snip: Snip { stmts, label: format!("{:?} extremes: {:?} {:?} {:?}{}", t, a, op, bb, if store { " stored" } else { "" }), ill_typed: false },
+                        stdin: String::new(),
+                        boundary: true,
+                    });
+                }
+            }
+        }
+        // unary minus
+        for a in &operands {
+            let mut b = B::new();
+            let mut stmts = big(&mut b);
+            stmts.push(b.print(vec![bin(BinOp::Eq, Expr::Neg(Box::new(a.clone())), tv("M", t)), bin(BinOp::Eq, Expr::Neg(Box::new(a.clone())), tv("NM", t))]));
+            out.push(Snip06 { snip: Snip { stmts, label: format!("{:?} extremes: neg {:?}", t, a), ill_typed: false }, stdin: String::new(), boundary: true });
+        }
+    }
+    // DOUBLE -> SINGLE at the edge of the SINGLE range, through the storing routes
+    let (smax, _) = float_extremes(Ty::Single);
+    let smax_d = format!("{}#", smax);
+    let beyond = format!("{:.1}#", f32::MAX as f64 * 2.0);
+    let just_beyond = format!("{:.1}#", f32::MAX as f64 + 2f64.powi(103)); // MAX + one unit in the last place
+    for (text, what) in [(smax_d.clone(), "MAX"), (beyond, "2*MAX"), (just_beyond, "MAX+ulp")] {
+        for negative in [false, true] {
+            for route in 0..4 {
+                let mut b = B::new();
+                let lit = if negative { Expr::Neg(Box::new(Expr::Num(text.clone()))) } else { Expr::Num(text.clone()) };
+                let mut stmts = vec![b.assign(var("SRC#"), lit), b.assign(var("M!"), Expr::Num(smax.clone()))];
+                let target: Expr = match route {
+                    0 => var("T!"),
+                    1 => Expr::Index("AR!".into(), vec![num(1)]),
+                    2 => field_of(Ty::Single),
+                    _ => var("T!"),
+                };
+                if route == 3 {
+                    // FUNCTION result
+                    stmts.push(b.assign(var("T!"), call("FRSINGLE!", vec![Expr::Paren(Box::new(var("SRC#")))])));
+                } else {
+                    stmts.push(b.assign(target.clone(), var("SRC#")));
+                }
+                stmts.push(b.print(vec![bin(BinOp::Eq, target.clone(), var("M!")), bin(BinOp::Eq, target, Expr::Neg(Box::new(var("M!"))))]));
+                out.push(Snip06 {
+                    snip: Snip { stmts, label: format!("DOUBLE {}{} -> SINGLE route{}", if negative { "-" } else { "" }, what, route), ill_typed: false },
+                    stdin: String::new(),
+                    boundary: true,
+                });
+            }
+        }
+    }
+    out
+}
+
+// ---------------------------------------------------------------------------
+// FOR with a step of another type than the counter: the counter only ever holds
+// values of its own type. Steps are chosen so that converting the step once and
+// converting every sum give the same sequence (1.25, 1.75, 2.25, -1.25; no ties).
+// ---------------------------------------------------------------------------
+
+pub fn for_steps() -> Vec<Snip06> {
+    let mut out = vec![];
+    let steps: Vec<(&str, bool)> = vec![("1.25", false), ("1.75", false), ("2.25", false), ("1.25#", false), ("1.75#", false), ("1.25", true), ("1.75#", true), ("2", false), ("70000", false)];
+    for counter in Ty::NUMERIC {
+        for (step, negative) in &steps {
+            for form in 0..2 {
+                if *step == "70000" && counter == Ty::Int {
+                    // Overflow when the step is converted / added: covered below with the boundary starts
+                }
+                let mut b = B::new();
+                let mut stmts = vec![];
+                let step_lit = if *negative { Expr::Neg(Box::new(Expr::Num(step.to_string()))) } else { Expr::Num(step.to_string()) };
+                let step_e = if form == 0 {
+                    step_lit
+                } else {
+                    let ty = if step.ends_with('#') { Ty::Double } else if step.contains('.') { Ty::Single } else if *step == "70000" { Ty::Long } else { Ty::Int };
+                    stmts.push(b.assign(tv("ST", ty), step_lit));
+                    tv("ST", ty)
+                };
+                let k = tv("K", counter);
+                let (from, to) = if *negative { (num(6), num(1)) } else if *step == "70000" { (num(1), num(100000)) } else { (num(1), num(6)) };
+                if *step == "70000" && counter == Ty::Int {
+                    continue;
+                }
+                let body = vec![b.print(vec![st("i"), k.clone()])];
+                stmts.push(b.s(K::For { var: k.clone(), from, to, step: Some(step_e), body, next_var: false }));
+                stmts.push(b.print(vec![st("after"), k]));
+                out.push(Snip06 {
+                    snip: Snip { stmts, label: format!("FOR {:?} counter STEP {}{} form{}", counter, if *negative { "-" } else { "" }, step, form), ill_typed: false },
+                    stdin: String::new(),
+                    boundary: false,
+                });
+            }
+        }
+        // the increment past the type's maximum with a fractional step
+        if counter == Ty::Int || counter == Ty::Long {
+            let (_, hi) = bounds(counter);
+            for step in ["1.25", "1.75#", "2.25"] {
+                let mut b = B::new();
+                let k = tv("K", counter);
+                let from = literal_of(hi - 2.0, if counter == Ty::Int { Ty::Int } else { Ty::Long }).unwrap();
+                let to = literal_of(hi, if counter == Ty::Int { Ty::Int } else { Ty::Long }).unwrap();
+                let body = vec![b.print(vec![st("i"), k.clone()])];
+                let stmts = vec![
+                    b.s(K::For { var: k.clone(), from, to, step: Some(Expr::Num(step.to_string())), body, next_var: false }),
+                    b.print(vec![st("after"), k]),
+                ];
+                out.push(Snip06 {
+                    snip: Snip { stmts, label: format!("FOR {:?} counter at MAX STEP {}", counter, step), ill_typed: false },
+                    stdin: String::new(),
+                    boundary: true,
+                });
+            }
+        }
+    }
+    out
+}
